@@ -91,6 +91,15 @@ def gen_table(rng: random.Random, m=None, n=None, k=None, kind=None, scale=None,
         for j in bad:
             for c in range(F):
                 Y[j][c] = Y[j][c] * 1.7 + scale
+    if kind == "dense" and random.Random(int(Z[0][0] * 1e6) ^ 0x7E6A).random() < 0.12:
+        # one industry buys more of one input (all regions together) than it produces: technical coefficient above 1, negative
+        # value added — accepted by the library with a warning, and balanced like any other table
+        j_ = random.Random(int(Z[0][0] * 1e6) ^ 0x7E6B).randrange(N)
+        s_ = random.Random(int(Z[0][0] * 1e6) ^ 0x7E6C).randrange(n)
+        xj_ = sum(Z[j_]) + sum(Y[j_])
+        for r_ in range(m):
+            Z[r_ * n + s_][j_] = 1.3 * xj_ / m
+        kind = "dense+neg_va"
     tb = {"m": m, "n": n, "k": k, "kind": kind, "scale": scale, "Z": Z, "Y": Y}
     lab_rng = random.Random(int(Z[0][0] * 1e6) ^ 0x1ABE1)       # (drawn apart: the table itself is what it was)
     lr_ = lab_rng.random()
